@@ -149,14 +149,17 @@ class Baton:
         self._sems[key].acquire()
 
 
-def explore(run, bound=None, limit=200000):
+def explore(run, bound=None, limit=200000, part=None):
     """Enumerate executions.  run(prefix) -> (observation, Baton).  Yields (choices, observation, baton).
 
-    bound: maximal number of preemptions (None = all interleavings)."""
-    stack = [[]]
+    bound: maximal number of preemptions (None = all interleavings).
+    part=(r, m): share r of m of the bounded space - the default schedule and every schedule that deviates from it once are run by
+    every share (they are needed to enumerate the rest), the subtrees below them are dealt out round-robin."""
+    stack = [([], 0)]
     count = 0
+    dealt = 0
     while stack:
-        prefix = stack.pop()
+        prefix, depth = stack.pop()
         obs, b = run(prefix)
         count += 1
         if count > limit:
@@ -176,7 +179,11 @@ def explore(run, bound=None, limit=200000):
                 cost = pre[i] + (1 if t["cur_enabled"] else 0)
                 if bound is not None and cost > bound:
                     continue
-                stack.append(choices[:i] + [alt])
+                if part is not None and depth == 1:
+                    dealt += 1
+                    if dealt % part[1] != part[0]:
+                        continue
+                stack.append((choices[:i] + [alt], depth + 1))
 
 
 def count_topological_orders(shape):
